@@ -28,6 +28,8 @@ def plan(tier, seed):
     for v in tables.versions():
         for kind in ('segment', 'field', 'message', 'component'):
             specs.append({'kind': 'random', 'world': kind, 'version': v, 'n': n if kind in ('segment', 'field') else n // 2})
+    for v in tables.versions():
+        specs.append({'kind': 'groupcopy', 'version': v, 'n': 24 if tier == 'quick' else 400})
     specs.append({'kind': 'exhaustive', 'world': 'segment', 'version': '2.5', 'L': 3 if tier == 'quick' else 4})
     specs.append({'kind': 'exhaustive', 'world': 'message', 'version': '2.5', 'L': 3})
     specs.append({'kind': 'exhaustive', 'world': 'field', 'version': '2.5', 'L': 3 if tier == 'quick' else 4})
@@ -144,6 +146,10 @@ def run_random(spec, rec):
                 # with those
                 w = hist.make_world('segment', v, level, rng, ec=gen.delimiter_set(rng, v, with_truncation=False))
                 rec.count('custom_delimiter_worlds')
+            elif spec['world'] == 'message' and i % 4 == 3:
+                # both messages declare the same non-default delimiters: copies between them keep every separator's role
+                w = hist.make_world('message', v, level, rng, ec=gen.delimiter_set(rng, v, with_truncation=False))
+                rec.count('custom_delimiter_worlds')
             else:
                 w = hist.make_world(spec['world'], v, level, rng)
         except RuntimeError as e:
@@ -236,11 +242,99 @@ def run_exhaustive(spec, rec):
     rec.sample({'exhaustive': spec['world'], 'alphabet': alpha, 'max_len': spec['L'], 'complete_histories': n})
 
 
+def check_group_copy(core, v, level, ec, how, rec, rng):
+    """a group (segments holding repetitions, components and sub-components) copied from one message into another that
+    declares the same delimiters: the copy encodes line for line like the source, and the source keeps its group"""
+    from .. import structref, er7ref
+    msgs = tables.messages(v)
+    cands = []
+    for name in ('ADT_A01', 'ORU_R01', 'OML_O21', 'ADT_A05', 'RDE_O11', 'ORM_O01'):
+        node = msgs.get(name)
+        if node is None or not structref.usable(v, node) or not structref.msh9_for(v, name):
+            continue
+        for g in node.children:
+            if g.kind == 'GRP' and g.card[1] == -1 and g.children and g.children[0].kind == 'SEG' and \
+                    [x.name for x in node.children].count(g.name) == 1:
+                rows = []
+                for r in gen.usable_rows(v, g.children[0].name):
+                    if r.kind == 'sequence' and r.card[1] == -1:
+                        cs = tables.components(v, r.datatype)
+                        if len(cs) >= 2 and all(c.ok and c.card[1] != 0 and c.kind == 'leaf' and c.datatype in ('ST', 'ID', 'IS')
+                                                for c in cs[:2]):
+                            rows.append(r)
+                if rows:
+                    cands.append((name, g, rows[0]))
+    if not cands:
+        rec.count('group_copy_not_applicable')
+        return
+    name, g, row = cands[rng.randrange(len(cands))]
+    case = {'kind': 'group-copy', 'version': v, 'level': level, 'structure': name, 'group': g.name, 'how': how,
+            'ec': {k: c for k, c in (ec or {}).items() if k not in ('SEGMENT', 'GROUP')} or None}
+    rec.evaluation(('group-copy', v, level, name, g.name, how, hooks_ec(ec)))
+    chars = ec or er7ref.STD
+    F, C, R = chars['FIELD'], chars['COMPONENT'], chars['REPETITION']
+    seg = g.children[0].name
+    line = seg + F * row.num + 'a1' + C + 'b1' + R + 'a2' + C + 'b2'
+    try:
+        ms = []
+        for k in range(2):
+            m = core.Message(name, version=v, validation_level=level, encoding_chars=gen.full_ec(ec) if ec else None)
+            m.msh.msh_7 = '20200101'
+            m.msh.msh_9 = structref.msh9_for(v, name).replace('^', C)
+            m.msh.msh_10 = str(k)
+            ms.append(m)
+        src, dst = ms
+        grp = src.add_group(g.name)
+        sg = grp.add_segment(seg)
+        setattr(sg, row.name.lower(), 'a1' + C + 'b1')
+        getattr(sg, row.name.lower())[1] = 'a2' + C + 'b2'
+        if [l for l in src.to_er7().split('\r') if l][1:] != [line]:
+            rec.count('group_copy_source_not_as_expected')
+            return
+        gname = g.name.lower()
+        if how == 'proxy':
+            setattr(dst, gname, getattr(src, gname))
+        elif how == 'element':
+            setattr(dst, gname, getattr(src, gname)[0])
+        elif how == 'text':
+            setattr(dst, gname, line)
+        else:
+            dst.add_group(g.name)
+            getattr(dst, gname)[0] = getattr(src, gname)[0]
+        rec.count('group_copies_compared')
+        got_dst = [l for l in dst.to_er7().split('\r') if l][1:]
+        got_src = [l for l in src.to_er7().split('\r') if l][1:]
+        if got_dst != [line] or got_src != [line] or getattr(dst, gname)[0] is getattr(src, gname)[0]:
+            rec.violation('group-not-copied-by-value', case, {'source': got_src, 'copy': got_dst, 'expected': [line]})
+    except Exception as e:
+        rec.violation('valid-operation-raised:group-copy:%s' % type(e).__name__, case, {'exc': repr(e)[:200]})
+
+
+def hooks_ec(ec):
+    return ''.join(ec[k] for k in ('FIELD', 'COMPONENT', 'SUBCOMPONENT', 'REPETITION', 'ESCAPE')) if ec else 'std'
+
+
+def run_groupcopy(spec, rec):
+    from hl7apy import core
+    v = spec['version']
+    rng = gen.rng_for(spec['seed'], 'c09-groupcopy', v)
+    for i in range(spec['n']):
+        ec = None if i % 2 == 0 else gen.delimiter_set(rng, v, with_truncation=False)
+        check_group_copy(core, v, 1 + i % 3 % 2, ec, ('proxy', 'element', 'text', 'index')[i % 4], rec, rng)
+    rec.seen('versions', v)
+
+
 def run_shard(spec, rec):
-    {'random': run_random, 'exhaustive': run_exhaustive}[spec['kind']](spec, rec)
+    {'random': run_random, 'exhaustive': run_exhaustive, 'groupcopy': run_groupcopy}[spec['kind']](spec, rec)
 
 
 def replay(case, rec):
+    if case.get('kind') == 'group-copy':
+        from hl7apy import core
+        for k in range(8):
+            check_group_copy(core, case['version'], case['level'], gen.full_ec(case['ec']) if case.get('ec') else None,
+                             case['how'], rec, gen.rng_for(k, 'replay'))
+        return
     d = case['world']
     rng = gen.rng_for(0, 'replay')
     w = hist.make_world(d['kind'], d['version'], d['level'], rng, **world_kwargs(d))
